@@ -33,6 +33,8 @@ type Thread struct {
 	lastSync  string
 	hasWindow bool
 	held      map[string]byte
+	cutAfterOp bool
+	fromLib   bool
 }
 
 type traceEv struct {
@@ -44,6 +46,8 @@ type traceEv struct {
 	key           int
 	sync          bool
 	spawn         []spawnTake
+	blocked       *Term
+	pg, done      *Term
 }
 
 type spawnTake struct {
@@ -78,6 +82,7 @@ type W struct {
 	observe bool
 	raceMode bool
 	trace   []traceEv
+	standing []traceEv
 	atQuiesce []*Func
 	atCut   []*Func
 	R, U    int
@@ -110,6 +115,8 @@ type W struct {
 	spawnTrunc map[string]*Term
 	recoverFns map[*ssa.Function]bool
 	orderFirst []string
+	prologue bool
+	hasPrologue bool
 }
 
 var debugYields = os.Getenv("GOBMC_DEBUG") != ""
@@ -178,6 +185,10 @@ func (w *W) othersExist(t *Thread) bool {
 	if t.alone {
 		return false
 	}
+	if t.id == 0 && w.prologue {
+		// the harness declared a prologue (vPrologueEnd): it runs as one burst, first in round 0
+		return false
+	}
 	for _, o := range w.threads {
 		if o != t && !o.spawned.IsFalse() {
 			return true
@@ -220,6 +231,11 @@ func (w *W) op(t *Thread, key int, pg *Term, o opSpec) (Value, *Term) {
 		// scheduling point that heads its segment, so "done" is just the path guard of the previous walk.
 		at := And(pg, Not(st.done))
 		if at.IsFalse() || w.observe {
+			if t.cutAfterOp {
+				t.cutAfterOp = false
+				t.truncated = Or(t.truncated, pg)
+				return st.res, False
+			}
 			return st.res, pg
 		}
 		w.recordAccess(t, o)
@@ -231,14 +247,27 @@ func (w *W) op(t *Thread, key int, pg *Term, o opSpec) (Value, *Term) {
 		if nv != nil {
 			st.res = merge(exec, nv, st.res)
 		}
-		if o.traced && !exec.IsFalse() && !t.alone {
+		if (o.traced || debugYields) && !exec.IsFalse() && !t.alone {
 			w.trace = append(w.trace, traceEv{thread: t.id, round: t.round, exec: exec, pos: w.pos(o.pos), kind: o.kind, key: key, sync: true, fn: w.curFnName()})
 		}
 		st.done = pg
+		if t.cutAfterOp {
+			t.cutAfterOp = false
+			t.truncated = Or(t.truncated, pg)
+			if debugYields {
+				fmt.Fprintln(os.Stderr, "cut after plain op", o.kind, w.pos(o.pos), "T", t.id, "frozen:", w.frozen != nil)
+			}
+			return st.res, False
+		}
 		return st.res, pg
 	}
 	at := And(pg, Not(st.done))
 	if at.IsFalse() {
+		if t.cutAfterOp {
+			t.cutAfterOp = false
+			t.truncated = Or(t.truncated, st.done)
+			return st.res, False
+		}
 		return st.res, st.done
 	}
 	en := o.enabled
@@ -249,6 +278,12 @@ func (w *W) op(t *Thread, key int, pg *Term, o opSpec) (Value, *Term) {
 		t.canmove = Or(t.canmove, And(at, en))
 		if w.raceMode && len(o.cells) > 0 {
 			w.noteRaceCand(t, o, at)
+		}
+		w.standing = append(w.standing, traceEv{thread: t.id, exec: at, pos: w.pos(o.pos), kind: o.kind, fn: w.curFnName(), blocked: Not(en)})
+		if t.cutAfterOp {
+			t.cutAfterOp = false
+			t.truncated = Or(t.truncated, st.done)
+			return st.res, False
 		}
 		return st.res, st.done
 	}
@@ -297,6 +332,16 @@ func (w *W) op(t *Thread, key int, pg *Term, o opSpec) (Value, *Term) {
 	}
 	t.running = And(t.running, Or(Not(at), exec))
 	st.done = Or(st.done, exec)
+	if t.cutAfterOp {
+		// first operation of a loop iteration beyond the unwinding bound: the goroutine may stand (or block)
+		// before it, but having executed it puts the state outside the bound
+		t.cutAfterOp = false
+		t.truncated = Or(t.truncated, st.done)
+		if debugYields {
+			fmt.Fprintln(os.Stderr, "cut after op", o.kind, w.pos(o.pos), "T", t.id, "frozen:", w.frozen != nil)
+		}
+		return st.res, False
+	}
 	return st.res, st.done
 }
 
@@ -421,6 +466,9 @@ func (w *W) run(root *ssa.Function) {
 
 func (w *W) walkThread(t *Thread) {
 	t.truncated = False
+	if t.id == 0 {
+		w.prologue = w.hasPrologue
+	}
 	if t.id == 0 && w.entryPkg != nil && w.entryPkg.Func("init") != nil {
 		// package initialisers of the repository's packages (dependencies' are skipped, see intrinsic())
 		ifr := w.newFrame(t, FAlt{g: True, fn: w.entryPkg.Func("init")}, nil, mkKey(0, -3, 0, 0))
